@@ -10,16 +10,13 @@
     or (C) read-only once shared, — each up to thread-confined / pre-publication accesses —
   has no data race in any trace that conforms to the table.
   INSTANCE (finite quantifier: all syntactic accesses to the tracked fields, regenerated from /repo by
-  harness/cmd/kbextract/locks.go on every run): `lock_table_disciplined_partial` by `decide`;
-  the FULL instance `LockTableDisciplined` is false on the current tree — `lock_table_offenders` lists
-  exactly the locations that violate the discipline:
-    * scanner.compactRecordQueue.list  (container/list behind scanner.compactHistories: pushed by every
-      Compact, no lock; two concurrent Compact requests race — reproduced with `go test -race`),
-    * leader.leaderElection.leader     (plain bool written by the election callbacks, read by every request),
-    * election.resourceLock.record/tso (rewritten by the election loop on every renewal, read by Describe()
-      from request goroutines; the address of `record` is also handed to client-go),
-    * etcd.watcher.watches             (`len(w.watches)` read after Unlock in watcher.Start)
-  — all four reproduced by the race detector (harness/racetest, `bin/check C19`).
+  harness/cmd/kbextract/locks.go on every run): **`lock_table_disciplined`** by `decide` — EVERY tracked
+  location obeys the discipline — hence `tracked_locations_race_free` for every tracked location.
+  History: until the fixes 697fb5c (mutex in the scanner's compaction history), 94d3c25 (atomic leader flag),
+  d3cd8cd (mutex around resourceLock.record / tso) and 24436ee (etcd watcher: no `len(w.watches)` after Unlock)
+  the instance held only outside five offending locations, each of which the race detector reproduced;
+  `lock_table_no_offenders` (`undisciplined lockTable = []`) is the regression guard: reverting any of
+  those fixes makes it (and `lock_table_disciplined`) fail, and harness/racetest then reports the race.
   TRUSTED (this is why the level is partial): the extractor's lexical lock analysis and its `Conforms`
   reading (the listed locks really are held, on the same owner object, whenever the access executes);
   the memkv batch protocol's client obligations; thread-confinement / pre-publication claims; the
@@ -67,34 +64,28 @@ theorem lock_table_resolved : lockTableUnresolved = [] := by decide
 theorem lock_table_covers : (lockTableLocations.all fun x => (fieldsOf lockTable).contains x) = true := by
   decide +kernel
 
-/-- THE FULL INSTANCE: every tracked location obeys the discipline. FALSE on the current tree. -/
+/-- THE FULL INSTANCE (statement): every tracked location obeys the discipline. -/
 def LockTableDisciplined : Prop := tableDisciplined lockTable = true
 
-/-- the locations that violate the discipline on the current tree -/
-def offending : List Name :=
-  [b!"election.resourceLock.record", b!"election.resourceLock.tso", b!"etcd.watcher.watches",
-   b!"leader.leaderElection.leader", b!"scanner.compactRecordQueue.list"]
-
-/-- PARTIAL INSTANCE (finite quantifier: all syntactic accesses): every tracked location except the
-offending ones obeys the discipline. -/
-theorem lock_table_disciplined_partial : tableDisciplinedExcept lockTable offending = true := by
+/-- THE FULL INSTANCE (finite quantifier: all syntactic accesses of the regenerated table): every tracked
+location obeys the lock discipline. -/
+theorem lock_table_disciplined : LockTableDisciplined := by
+  unfold LockTableDisciplined
   decide +kernel
 
-/-- WITNESS: exactly the offending locations violate the discipline … -/
-theorem lock_table_offenders : undisciplined lockTable = offending := by decide +kernel
+/-- no location violates the discipline (the list that used to name five offenders is empty) -/
+theorem lock_table_no_offenders : undisciplined lockTable = [] := by decide +kernel
 
-/-- … hence the full instance does not hold. -/
-theorem lock_table_not_disciplined : ¬ LockTableDisciplined := by
-  have h : tableDisciplined lockTable = false := by decide +kernel
-  intro h'
-  rw [LockTableDisciplined, h] at h'
-  exact absurd h' (by decide)
+/-- the discipline holds for each tracked location individually -/
+theorem lock_table_each_location : ∀ x ∈ lockTableLocations, locDisciplined lockTable x = true := by
+  have h : (lockTableLocations.all fun x => locDisciplined lockTable x) = true := by decide +kernel
+  exact fun x hx => List.all_eq_true.mp h x hx
 
-/-- C19 on the current tree, partial: in every execution (trace accepted by the lock machine) that
-conforms to the extracted table, no tracked location other than the offending ones has a data race. -/
-theorem tracked_locations_race_free_partial (tr : Trace) (hacc : Accepted tr) (hc : Conforms lockTable tr)
-    (x : Loc) (hx : x.field ∉ offending) : RaceFreeOn tr x :=
-  lock_discipline_race_free_operational lockTable offending lock_table_disciplined_partial tr hacc hc x hx
+/-- C19 for the tracked locations: in every execution (trace accepted by the lock machine) that conforms to
+the extracted table, NO location has a data race. -/
+theorem tracked_locations_race_free (tr : Trace) (hacc : Accepted tr) (hc : Conforms lockTable tr)
+    (x : Loc) : RaceFreeOn tr x :=
+  lock_discipline_race_free_operational lockTable [] lock_table_disciplined tr hacc hc x (by simp)
 
 /-! ### satisfiability of the hypotheses, non-vacuity of the conclusion (details in KB.Locks) -/
 
